@@ -27,7 +27,7 @@ RULE = (
 )
 ASSUMPTIONS = [
     "schedules: worker count, pool provenance and per-snapshot texture are varied; the OS interleaving itself is not controlled",
-    "uniform textures: threshold 3*M_ref+0.03 where M_ref is an independent correct M-index (vlib/ref_mindex.py: proper rotation groups, Monte-Carlo theoretical density) of the same generated texture, i.e. the sampling level; single orientation: >= 0.95",
+    "uniform textures: M <= M_ref + 0.02 where M_ref is an independent correct M-index (vlib/ref_mindex.py: proper rotation groups, Monte-Carlo theoretical density) of the same generated texture, i.e. its sampling level (triclinic agrees within 0.003); single orientation: >= 0.95",
     "frame/symmetry invariance tolerance: 1e-6, or (k+1)/pairs when k pairs lie within float32 rounding of a 1-degree bin edge (they may hop bins without any defect)",
 ]
 
@@ -160,8 +160,9 @@ def check_limits(case):
     A = gen._random_rotations(rng, n)
     m = _m(A, system)
     # sampling level of a correct index for this very texture (independent reference)
-    thr = 3.0 * ref_mindex.m_index(A, case["sys"]) + 0.03
-    require(m <= thr, f"uniformly random texture of {n} grains has M = {m:.4f} > sampling threshold {thr:.4f} ({case['sys']})", m)
+    m_ref = ref_mindex.m_index(A, case["sys"])
+    thr = m_ref + 0.02
+    require(m <= thr, f"uniformly random texture of {n} grains has M = {m:.4f}; a correct index gives the sampling level {m_ref:.4f} (tolerance 0.02) ({case['sys']})", m)
     _single_limit(case, system)
     return {"nontrivial": True, "labels": [case["sys"], f"n{n // 50 * 50}"], "residual": m / thr}
 
@@ -249,7 +250,7 @@ ORACLES = [
         ),
         check_limits,
         classify=by_sys,
-        known_models={k: check_single_only for k in ("monoclinic", "tetragonal", "hexagonal")},
+        known_models={k: check_single_only for k in ("monoclinic", "orthorhombic", "tetragonal", "hexagonal")},
         quick=18,
         thorough=40,
     ),
@@ -260,7 +261,7 @@ ORACLES = [
         ),
         check_limits,
         classify=by_sys,
-        known_models={k: check_single_only for k in ("monoclinic", "tetragonal", "hexagonal")},
+        known_models={k: check_single_only for k in ("monoclinic", "orthorhombic", "tetragonal", "hexagonal")},
         quick=0,
         thorough=3,
     ),
